@@ -10,17 +10,24 @@
     publisher behaviour). *)
 From WM Require Import Base.Prelude Message.Model Handler.RouterHandle Router.Wiring Router.WiringSpec Router.WiringProofs.
 
-(** A message handed to subscriber object [d_sub d] on topic [d_topic d] is processed by handler [n]
-    iff [n] was added (first AddHandler with that name), has been started, and subscribes on exactly
-    that subscriber and topic; at most once per handler; and what runs is that handler's own function,
-    once, and no other function. *)
+(** For EVERY program (incl. Handler.Stop, re-added names, failing decorator constructors): a message
+    handed to subscriber object [d_sub d] on topic [d_topic d] is processed by handler [n] iff the
+    Router holds a STARTED handler of that name subscribed on exactly that subscriber and topic; at
+    most once per handler; and what runs is that handler's own function, once, and no other. *)
 Theorem C08_right_function : forall ops d,
   (forall n tr, In (n, tr) (deliver (exec rinit ops) d) <->
-      exists h s, spec_cfg n ops = Some h /\ spec_started n ops = Some s
+      exists h s, find_handler n (exec rinit ops) = Some (HS h (Some s))
                   /\ h_sub h = d_sub d /\ h_subtopic h = d_topic d /\ tr = dispatch h s d)
   /\ NoDup (map fst (deliver (exec rinit ops) d))
   /\ (forall h s, fn_calls (dispatch h s d) = [(h_fn h, ctx_of h)]).
 Proof. exact c08_right_function. Qed.
+
+(** ... and for programs without Stop / failing constructors the handler the Router holds under a
+    name is: the first AddHandler with that name, started iff a Run/RunHandlers followed it. *)
+Theorem C08_wiring_is_declarative : forall ops n, plain ops = true ->
+  find_handler n (exec rinit ops) =
+  match spec_cfg n ops with Some h => Some (HS h (spec_started n ops)) | None => None end.
+Proof. exact c08_wiring_plain. Qed.
 
 (** All Publish calls of one copy: exactly one, on the handler's own publisher object and publish
     topic, carrying the chain's outputs unmodified and in order — and only when the chain returned
@@ -51,10 +58,12 @@ Proof. exact c08_settles_as_c02. Qed.
 (** Context values (REPAIRED addHandlerContext: all five keys always set): whatever router keys the
     arriving message context already carries, inside the function the context reports exactly this
     handler's name, publisher type name, subscriber type name, subscribe topic and publish topic,
-    and so does every produced message (the consumed object, fresh ones, ones appended by middlewares). *)
+    and so does every produced message — while everything ELSE each produced message's own context
+    carries (its user values, its cancellation) reaches the publisher untouched, message by message. *)
 Theorem C08_context_values : forall h s d,
   fn_calls (dispatch h s d) = [(h_fn h, ctx_of h)]
-  /\ (forall p t outs m c, In (p, t, outs) (publish_calls (dispatch h s d)) -> In (m, c) outs -> c = ctx_of h).
+  /\ (forall p t outs m c u, In (p, t, outs) (publish_calls (dispatch h s d)) -> In (m, c, u) outs ->
+        c = ctx_of h /\ u = own_ctx d m).
 Proof. exact c08_context_values. Qed.
 
 (** PINNED addHandlerContext (keys set only for non-empty values; before the fix commit): the clause
@@ -71,8 +80,10 @@ Proof. exact overlay_pinned_fresh. Qed.
     program passes the acceptor that judges implementation observations. *)
 Theorem C08_dispatch_is_spec : forall h s d, dispatch h s d = spec_trace h s d.
 Proof. exact dispatch_spec. Qed.
-Theorem C08_model_accepted : forall ops, c08_monitor ops (run rinit ops) = true.
+Theorem C08_model_accepted : forall ops, plain ops = true -> c08_monitor ops (run rinit ops) = true.
 Proof. exact c08_model_accepted. Qed.
+Theorem C08_model_accepted_all : forall ops, c08_monitor_st ops (run rinit ops) = true.
+Proof. exact c08_model_accepted_st. Qed.
 
 Print Assumptions C08_right_function.
 Print Assumptions C08_publish_target.
@@ -83,6 +94,8 @@ Print Assumptions C08_context_values_pinned_refuted.
 Print Assumptions C08_context_pinned_agrees_when_fresh.
 Print Assumptions C08_dispatch_is_spec.
 Print Assumptions C08_model_accepted.
+Print Assumptions C08_model_accepted_all.
+Print Assumptions C08_wiring_is_declarative.
 
 (** non-vacuity.  Two handlers on ONE subscriber object and topic, sharing ONE publisher object,
     different publish topics; a router-level appending middleware registered between them and a
@@ -93,26 +106,28 @@ Definition exB := HC 11 1 7 20 (PReal 1 8) 31 2.
 Definition exOps := [OAddHandler exA; OAddMw 5 (Some 105%N); OAddHandler exB;
                      OAddHandler (HC 10 1 7 21 PNil 32 3); OStart].
 Example C08_witness_two_handlers :
-  deliver (exec rinit exOps) (DL 1 20 cx0 (Ret [1; 0]%N) PubAccept) =
+  deliver (exec rinit exOps) (DL 1 20 cx0 (0%N, false) (Ret [1; 2; 0]%N) PubAccept) =
   [(10%N, [EEnter 5; EFn 1 (ctx_of exA); EExit 5;
-           EPublish 1 30 [(1%N, ctx_of exA); (0%N, ctx_of exA); (105%N, ctx_of exA)]; ESettle true]);
+           EPublish 1 30 [(1%N, ctx_of exA, (1%N, false)); (2%N, ctx_of exA, (2%N, true)); (0%N, ctx_of exA, (0%N, false));
+                          (105%N, ctx_of exA, (105%N, false))]; ESettle true]);
    (11%N, [EEnter 5; EFn 2 (ctx_of exB); EExit 5;
-           EPublish 1 31 [(1%N, ctx_of exB); (0%N, ctx_of exB); (105%N, ctx_of exB)]; ESettle true])].
+           EPublish 1 31 [(1%N, ctx_of exB, (1%N, false)); (2%N, ctx_of exB, (2%N, true)); (0%N, ctx_of exB, (0%N, false));
+                          (105%N, ctx_of exB, (105%N, false))]; ESettle true])].
 Proof. reflexivity. Qed.
 (** other topic: nobody *)
 Example C08_witness_other_topic :
-  deliver (exec rinit exOps) (DL 1 21 cx0 (Ret [1]%N) PubAccept) = [].
+  deliver (exec rinit exOps) (DL 1 21 cx0 (0%N, false) (Ret [1]%N) PubAccept) = [].
 Proof. reflexivity. Qed.
 (** AddNoPublisherHandler + a middleware that appends: decorators see the batch, nothing is
     published, Nack *)
 Example C08_witness_no_publisher :
-  deliver (exec rinit [OAddPubDec 9; OAddHandler (HC 12 1 7 20 PDisabled 0 3); OAddHMw 12 6 (Some 106%N); OStart])
-          (DL 1 20 cx0 (Ret []) PubAccept) =
+  deliver (exec rinit [OAddPubDec 9 0; OAddHandler (HC 12 1 7 20 PDisabled 0 3); OAddHMw 12 6 (Some 106%N); OStart])
+          (DL 1 20 cx0 (0%N, false) (Ret []) PubAccept) =
   [(12%N, [EEnter 6; EFn 3 (CX 12 ty_disabled 7 20 0); EExit 6; EPubDec 9 0 [106%N]; ESettle false])].
 Proof. reflexivity. Qed.
 (** a re-delivered object that still carries handler A's keys: the no-publisher handler reports its own
     (empty) publish topic *)
 Example C08_witness_redelivered_object :
-  fn_calls (dispatch (HC 12 1 7 20 PDisabled 0 3) (ST [] [] []) (DL 1 20 (ctx_of exA) (Ret []) PubAccept))
+  fn_calls (dispatch (HC 12 1 7 20 PDisabled 0 3) (ST [] [] []) (DL 1 20 (ctx_of exA) (7%N, true) (Ret []) PubAccept))
   = [(3%N, CX 12 ty_disabled 7 20 0)].
 Proof. reflexivity. Qed.
